@@ -30,6 +30,22 @@ type Runner struct {
 	// encLog keeps every executed `enc` request with its schema for the C03 layout oracle.
 	encLog   []encRecord
 	typeLine string // the `type …` line of the current universe (for replayable failure details)
+	failSeen map[string]int
+}
+
+// fail reports an oracle failure, at most 25 times per signature: hx keeps 2000 findings per run and
+// the frequent known findings must not crowd out a rare unknown one.
+func (x *Runner) fail(oracle, detail string, sig map[string]string) {
+	if x.failSeen == nil {
+		x.failSeen = map[string]int{}
+	}
+	key := oracle + "|" + sig["oracle"] + "|" + sig["trigger"] + "|" + sig["validation"] + "|" + sig["type"]
+	x.failSeen[key]++
+	x.R.Count("finding:" + sig["oracle"] + ":" + sig["trigger"])
+	if x.failSeen[key] > 25 {
+		return
+	}
+	x.R.Fail(oracle, detail, sig)
 }
 
 type encRecord struct {
@@ -203,7 +219,7 @@ func (x *Runner) execEnc(v reflect.Value, validation bool) string {
 	b, out := x.Encode(v, validation)
 	if out == "panic" {
 		// not a failure of C01 (a panic is not an accepted value); counted, and the model must agree
-		x.R.Count("encode-panic:" + Classify(s, v))
+		x.R.Count("encode-panic:" + Classify(s, v, "encode-panic"))
 	}
 	if out != "ok" {
 		return out
@@ -214,13 +230,13 @@ func (x *Runner) execEnc(v reflect.Value, validation bool) string {
 	// determinism
 	b2, out2 := x.Encode(v, validation)
 	if out2 != "ok" || !bytes.Equal(b, b2) {
-		x.R.Fail("determinism", fmt.Sprintf("two encodings of one value differ: %x vs %x (%s) %s", b, b2, out2, x.where())+rp,
+		x.fail("determinism", fmt.Sprintf("two encodings of one value differ: %x vs %x (%s) %s", b, b2, out2, x.where())+rp,
 			x.sig("determinism", "same-value", validation))
 	}
 	if cp, err := ParseVal(s, ValText(s, v, TextOpts{Perm: reversePerm})); err == nil {
 		b3, out3 := x.Encode(cp, validation)
 		if out3 != "ok" || !bytes.Equal(b, b3) {
-			x.R.Fail("determinism", fmt.Sprintf("rebuilt value (maps filled in reverse order) encodes differently: %x vs %x (%s) %s", b, b3, out3, x.where())+rp,
+			x.fail("determinism", fmt.Sprintf("rebuilt value (maps filled in reverse order) encodes differently: %x vs %x (%s) %s", b, b3, out3, x.where())+rp,
 				x.sig("determinism", "rebuilt-maps", validation))
 		}
 	}
@@ -230,15 +246,15 @@ func (x *Runner) execEnc(v reflect.Value, validation bool) string {
 		want := ValText(s, v, TextOpts{Norm: true})
 		switch {
 		case outD != "ok":
-			x.R.Fail("roundtrip", fmt.Sprintf("Decode(Encode(v)) = %s; bytes=%s value=%s %s", outD, clip(hexs(b), 200), clip(want, 400), x.where())+rp,
-				x.sig("roundtrip-"+outD, Classify(s, v), validation))
+			x.fail("roundtrip", fmt.Sprintf("Decode(Encode(v)) = %s; bytes=%s value=%s %s", outD, clip(hexs(b), 200), clip(want, 400), x.where())+rp,
+				x.sig("roundtrip-"+outD, Classify(s, v, "roundtrip-"+outD), validation))
 		case n != len(b):
-			x.R.Fail("roundtrip", fmt.Sprintf("Decode consumed %d of %d produced bytes; %s", n, len(b), x.where())+rp,
-				x.sig("roundtrip-count", Classify(s, v), validation))
+			x.fail("roundtrip", fmt.Sprintf("Decode consumed %d of %d produced bytes; %s", n, len(b), x.where())+rp,
+				x.sig("roundtrip-count", Classify(s, v, "roundtrip-count"), validation))
 		default:
 			if got := ValText(s, d, TextOpts{Norm: true}); got != want {
-				x.R.Fail("roundtrip", fmt.Sprintf("Decode(Encode(v)) differs: want %s got %s; %s", clip(want, 400), clip(got, 400), x.where())+rp,
-					x.sig("roundtrip-value", Classify(s, v), validation))
+				x.fail("roundtrip", fmt.Sprintf("Decode(Encode(v)) differs: want %s got %s; %s", clip(want, 400), clip(got, 400), x.where())+rp,
+					x.sig("roundtrip-value", Classify(s, v, "roundtrip-value"), validation))
 			}
 		}
 	}
@@ -262,14 +278,14 @@ func (x *Runner) execDec(b []byte, validation bool) string {
 	s := x.Env.Schema
 	d, n, out := x.Decode(b, validation)
 	if out == "panic" {
-		x.R.Fail("decode-panic", fmt.Sprintf("Decode panicked on %s; %s", clip(hexs(b), 200), x.where())+x.replay("dec "+flagName(validation)+" "+hexs(b)),
+		x.fail("decode-panic", fmt.Sprintf("Decode panicked on %s; %s", clip(hexs(b), 200), x.where())+x.replay("dec "+flagName(validation)+" "+hexs(b)),
 			x.sig("decode-panic", "input", validation))
 	}
 	if out != "ok" {
 		return out
 	}
 	if n > len(b) || n < 0 {
-		x.R.Fail("consumed", fmt.Sprintf("Decode reports %d consumed bytes of %d; %s", n, len(b), x.where()),
+		x.fail("consumed", fmt.Sprintf("Decode reports %d consumed bytes of %d; %s", n, len(b), x.where()),
 			x.sig("consumed", "input", validation))
 
 		return fmt.Sprintf("ok %s %d", ValText(s, d, TextOpts{}), n)
@@ -279,7 +295,7 @@ func (x *Runner) execDec(b []byte, validation bool) string {
 		if InTimeRange(s, d) {
 			b2, out2 := x.Encode(d, true)
 			if out2 != "ok" || !bytes.Equal(b2, b[:n]) {
-				x.R.Fail("canonical", fmt.Sprintf("validated Decode accepted %s (n=%d) but re-encoding gives %s %s; value=%s %s",
+				x.fail("canonical", fmt.Sprintf("validated Decode accepted %s (n=%d) but re-encoding gives %s %s; value=%s %s",
 					clip(hexs(b), 200), n, out2, clip(hexs(b2), 200), clip(ValText(s, d, TextOpts{}), 300), x.where())+x.replay("dec v "+hexs(b)),
 					x.sig("canonical-"+out2, ClassifyDecoded(s, d), validation))
 			} else {
@@ -331,7 +347,7 @@ func (x *Runner) LayoutOracle(driver string) {
 			continue
 		}
 		kind := strings.SplitN(e.impl, " ", 2)[0] + "-vs-" + strings.SplitN(ref, " ", 2)[0]
-		x.R.Fail("layout", fmt.Sprintf("Encode differs from the reference encoder: impl=%s reference=%s request=%s schema=%s universe=%s",
+		x.fail("layout", fmt.Sprintf("Encode differs from the reference encoder: impl=%s reference=%s request=%s schema=%s universe=%s",
 			clip(e.impl, 300), clip(ref, 300), clip(e.op, 400), clip(e.def, 600), e.universe)+" replay-ops=["+e.typeLine+" ;; def - ;; "+clip(e.op, 6000)+"]",
 			map[string]string{"oracle": "layout", "trigger": kind, "type": e.universe})
 	}
@@ -346,28 +362,25 @@ func CaseKey(parts ...string) string {
 
 // ---- classification of a failing (schema, value) by structural cause; this is what known findings match on ----
 
-// Classify names the structural feature of (schema, value) that is known to break the round trip, or
-// "unexplained".
-func Classify(s *Schema, v reflect.Value) string {
-	found := ""
+// Classify names the structural feature of (schema, value) that is known to break the round trip in
+// the observed way (kind = the oracle's signature, e.g. "roundtrip-err"), or "unexplained":
+// an error or panic of Decode is explained by colliding map keys (needs two entries) or by duplicate
+// empty-encoding elements, a differing value by an optional field with an empty encoding.
+func Classify(s *Schema, v reflect.Value, kind string) string {
+	found := map[string]bool{}
 	var walk func(s *Schema, v reflect.Value)
-	note := func(t string) {
-		if found == "" {
-			found = t
-		}
-	}
 	walk = func(s *Schema, v reflect.Value) {
 		switch s.K {
 		case KSlice, KArray:
 			if s.Rules.Lex && s.Rules.NoDups && !s.Elem.NonEmpty() && v.Len() >= 2 {
-				note("lex-nodups-empty-elements")
+				found["lex-nodups-empty-elements"] = true
 			}
 			for i := 0; i < v.Len(); i++ {
 				walk(s.Elem, v.Index(i))
 			}
 		case KMap:
-			if !s.Key.IsKey() {
-				note("map-key-" + s.Key.K.String())
+			if !s.Key.IsKey() && v.Len() >= 2 {
+				found["map-key-"+s.Key.K.String()] = true
 			}
 			iter := v.MapRange()
 			for iter.Next() {
@@ -378,7 +391,7 @@ func Classify(s *Schema, v reflect.Value) string {
 			for _, f := range s.Fields {
 				fv := v.Field(f.Index)
 				if f.Kind == 'o' && !fv.IsNil() && !f.T.NonEmpty() {
-					note("optional-empty-encoding")
+					found["optional-empty-encoding"] = true
 				}
 				walk(f.T, fv)
 			}
@@ -392,7 +405,7 @@ func Classify(s *Schema, v reflect.Value) string {
 				for _, a := range s.Alts {
 					if a.GoType == cv.Type() {
 						if !a.T.startsWith(s.Den, a.Code) {
-							note("iface-alt-without-code")
+							found["iface-alt-without-code"] = true
 						}
 						walk(a.T, cv)
 					}
@@ -401,11 +414,25 @@ func Classify(s *Schema, v reflect.Value) string {
 		}
 	}
 	walk(s, v)
-	if found == "" {
-		return "unexplained"
+	var order []string
+	switch kind {
+	case "roundtrip-value", "roundtrip-count":
+		order = []string{"optional-empty-encoding", "iface-alt-without-code"}
+	default:
+		order = []string{"map-key-time", "map-key-arr", "lex-nodups-empty-elements", "iface-alt-without-code"}
+		for k := range found {
+			if strings.HasPrefix(k, "map-key-") && k != "map-key-time" && k != "map-key-arr" {
+				return k
+			}
+		}
+	}
+	for _, k := range order {
+		if found[k] {
+			return k
+		}
 	}
 
-	return found
+	return "unexplained"
 }
 
 // ClassifyDecoded names the structural feature of a decoded value known to make re-encoding fail.
